@@ -23,6 +23,7 @@ META = {
     ],
     "floor_evaluations": {"quick": 2000, "thorough": 20000},
     "floor_nontrivial": {"quick": 500, "thorough": 5000},
+    "threads": 3,
     "anchors": ["func_adl/ast/function_simplifier.py", "func_adl/ast/call_stack.py"],
 }
 
@@ -33,7 +34,36 @@ RULES = [
     "visit_Subscript_List", "visit_Subscript_Dict", "visit_Subscript_Of_First", "visit_Attribute_Of_First",
     "visit_Subscript_Dict_with_value",
 ]
-_fired = set()
+class _ThreadLocalSet:
+    """which rewrite rules fired during the current case - per thread (shards may run their workload in several threads)"""
+
+    def __init__(self):
+        import threading
+
+        self._tl = threading.local()
+
+    def _s(self):
+        if not hasattr(self._tl, "s"):
+            self._tl.s = set()
+        return self._tl.s
+
+    def add(self, x):
+        self._s().add(x)
+
+    def clear(self):
+        self._s().clear()
+
+    def __iter__(self):
+        return iter(sorted(self._s()))
+
+    def __contains__(self, x):
+        return x in self._s()
+
+    def __len__(self):
+        return len(self._s())
+
+
+_fired = _ThreadLocalSet()
 
 
 def install_rule_counters():
@@ -71,7 +101,8 @@ def check_one(ctx, q, data, info, classify=True):
     _fired.clear()
     src_in = astx.dump_fields(q)
     fn_in = astx.free_names(q)
-    if info.get("naming") == "arglike" or info.get("fresh_process_counter"):
+    if (info.get("naming") == "arglike" or info.get("fresh_process_counter")) and not ctx.threads:
+        # (not while other threads are simplifying: resetting the process-wide counter under them is not something a program does)
         # what a fresh process (e.g. a backend receiving a query a client already simplified) starts from
         import func_adl.ast.function_simplifier as _fs
 
